@@ -7,9 +7,9 @@ package histgen
 import (
 	"encoding/binary"
 	"fmt"
-	"slices"
 	"math/big"
 	"math/rand"
+	"slices"
 	"strings"
 	"testing"
 
@@ -114,6 +114,16 @@ func LedgerProbe(i int, h interop.Hash256) {
 	st := ledger.GetTransactionVMState(h)
 	storage.Put(storage.GetContext(), []byte("led"), []byte{byte(r), byte(th + 1), byte(st)})
 }
+func LedgerProbe2(i int, h interop.Hash256) {
+	r := 0
+	if ledger.GetBlock(i) != nil {
+		r += 1
+	}
+	if ledger.GetTransaction(h) != nil {
+		r += 2
+	}
+	storage.Put(storage.GetContext(), []byte("led"), []byte{byte(r), byte(ledger.GetTransactionHeight(h) + 1)})
+}
 func Update(nef, manifest []byte) { management.Update(nef, manifest) }
 func Destroy()                    { management.Destroy() }
 func Version() int                { return variant }
@@ -136,14 +146,14 @@ func KV(t testing.TB, sender util.Uint160, variant int, name int) *neotest.Contr
 
 // Gen drives a reference chain.
 type Gen struct {
-	T     testing.TB
-	Net   *chainkit.Net
-	BC    *core.Blockchain
-	E     *neotest.Executor
-	R     *rand.Rand
-	Accts []neotest.SingleSigner
-	Cands map[int]bool // indexes of Accts currently registered (as far as the generator knows)
-	KVs   []util.Uint160
+	T      testing.TB
+	Net    *chainkit.Net
+	BC     *core.Blockchain
+	E      *neotest.Executor
+	R      *rand.Rand
+	Accts  []neotest.SingleSigner
+	Cands  map[int]bool // indexes of Accts currently registered (as far as the generator knows)
+	KVs    []util.Uint160
 	kvName map[util.Uint160]int
 	AllKVs []util.Uint160 // every scenario contract ever deployed (destroyed ones too)
 	// Churn is a dedicated whale candidate that is never picked by the random kinds: it registers, votes for
@@ -153,7 +163,7 @@ type Gen struct {
 	// Churn2 unregisters while it is still voted for and registers again in an otherwise QUIET epoch (no other
 	// vote-affecting transaction between the re-registration and the committee refresh).
 	Churn2 neotest.SingleSigner
-	nvar  int
+	nvar   int
 	// PendingOracle are the ids of oracle requests seen in accepted blocks and not answered yet (as far as the
 	// generator knows); Answered keeps some answered ids (a second response must be refused).
 	PendingOracle []uint64
@@ -162,7 +172,11 @@ type Gen struct {
 	// AvoidOldOracle: never answer a request whose requesting transaction may have left the traceability horizon
 	// (a node that collects old blocks cannot execute such a response the way an archival node does: known finding).
 	AvoidOldOracle bool
-	Answered      []uint64
+	// NoVMStateProbe: ledger look-ups do not ask for the VM state of an old transaction (a state-synchronised node
+	// has the transactions of the blocks it fetched but not their execution results: known finding).
+	NoVMStateProbe bool
+	TxHeight       map[util.Uint256]uint32
+	Answered       []uint64
 	// OldTxs are hashes of transactions of accepted blocks, oldest first.
 	OldTxs []util.Uint256
 	// QuietFrom..QuietTo (inclusive block indexes) is a stretch of empty blocks (long-chain worlds).
@@ -170,8 +184,8 @@ type Gen struct {
 	// Script adds a scripted transaction to the block of the given index (scenario steps of special worlds).
 	Script map[uint32]func() *transaction.Transaction
 	// Stats counts generated transaction kinds.
-	Stats  map[string]int
-	Faults int
+	Stats   map[string]int
+	Faults  int
 	Weights map[string]int
 }
 
@@ -233,6 +247,11 @@ func (g *Gen) committee() []neotest.Signer {
 
 func (g *Gen) hash(name string) util.Uint160 { return g.E.NativeHash(g.T, name) }
 
+// vubInc is the validity window given to generated transactions (inside the network's limit).
+func (g *Gen) vubInc() uint32 {
+	return min(5, max(1, g.BC.GetConfig().MaxValidUntilBlockIncrement))
+}
+
 // tx builds and signs an invocation; nil if it cannot be built.
 func (g *Gen) tx(signers []neotest.Signer, h util.Uint160, method string, args ...any) (tx *transaction.Transaction) {
 	defer func() {
@@ -241,7 +260,7 @@ func (g *Gen) tx(signers []neotest.Signer, h util.Uint160, method string, args .
 		}
 	}()
 	u := g.E.NewUnsignedTx(g.T, h, method, args...)
-	u.ValidUntilBlock = g.BC.BlockHeight() + 5
+	u.ValidUntilBlock = g.BC.BlockHeight() + g.vubInc()
 	for _, s := range signers {
 		u.Signers = append(u.Signers, transaction.Signer{Account: s.ScriptHash(), Scopes: transaction.Global})
 	}
@@ -551,7 +570,11 @@ func (g *Gen) one() *transaction.Transaction {
 		if g.R.Intn(2) == 0 {
 			old = g.OldTxs[g.R.Intn(1+len(g.OldTxs)/8)] // one of the oldest
 		}
-		tx = g.tx(sa, c, "ledgerProbe", idx, old.BytesBE())
+		m := "ledgerProbe"
+		if g.NoVMStateProbe {
+			m = "ledgerProbe2"
+		}
+		tx = g.tx(sa, c, m, idx, old.BytesBE())
 	case "natcfg":
 		switch g.R.Intn(5) {
 		case 0:
@@ -688,6 +711,10 @@ func (g *Gen) Harvest(b *block.Block) {
 	for _, tx := range b.Transactions {
 		if len(g.OldTxs) < 4000 {
 			g.OldTxs = append(g.OldTxs, tx.Hash())
+			if g.TxHeight == nil {
+				g.TxHeight = map[util.Uint256]uint32{}
+			}
+			g.TxHeight[tx.Hash()] = b.Index
 		}
 		for _, a := range tx.GetAttributes(transaction.OracleResponseT) {
 			id := a.Value.(*transaction.OracleResponse).ID
@@ -796,7 +823,7 @@ func (g *Gen) OracleResponse() (tx *transaction.Transaction) {
 	}
 	tx = transaction.New(native.CreateOracleResponseScript(orc), 0)
 	tx.Nonce = uint32(id)<<8 + uint32(g.R.Intn(256))
-	tx.ValidUntilBlock = g.BC.BlockHeight() + 5
+	tx.ValidUntilBlock = g.BC.BlockHeight() + g.vubInc()
 	tx.Attributes = []transaction.Attribute{{Type: transaction.OracleResponseT, Value: resp}}
 	tx.Signers = []transaction.Signer{{Account: orc, Scopes: transaction.None}, {Account: nodes.ScriptHash(), Scopes: transaction.None}}
 	// fees: together exactly what the request prepaid; the network part generously covers size and both witnesses
@@ -853,13 +880,16 @@ func (g *Gen) ScriptOldOracle(answerAt uint32) {
 			}
 			return g.tx([]neotest.Signer{a}, g.KVs[0], "oracleReq", "https://a.example/old", nil, nil, int64(1_0000_0000))
 		},
-		answerAt: func() *transaction.Transaction {
-			for i := 0; i < 40; i++ {
-				if tx := g.OracleResponse(); tx != nil && len(g.PendingOracle) > 0 && tx.Attributes[0].Value.(*transaction.OracleResponse).ID == g.PendingOracle[0] {
-					return tx
-				}
+	}
+	if answerAt == 0 {
+		return
+	}
+	g.Script[answerAt] = func() *transaction.Transaction {
+		for i := 0; i < 40; i++ {
+			if tx := g.OracleResponse(); tx != nil && len(g.PendingOracle) > 0 && tx.Attributes[0].Value.(*transaction.OracleResponse).ID == g.PendingOracle[0] {
+				return tx
 			}
-			return nil
-		},
+		}
+		return nil
 	}
 }
